@@ -26,7 +26,7 @@ CONSTRUCTION = ('job', 'sched', 'seq', 'append', 'seq_requires', 'requires',
 
 
 class HRun:
-    __slots__ = ('violations', 'stats', 'log', 'n_ops')
+    __slots__ = ('violations', 'stats', 'log', 'n_ops', 'events')
 
 
 def _jobspec(name, forever, salt=0):
@@ -875,4 +875,7 @@ def run_history(prop, case):
     res.stats = ex.stats
     res.log = ex.log
     res.n_ops = len(case['ops'])
+    res.events = [(seq, t, kind, nid, p if isinstance(p, (str, type(None)))
+                   else type(p).__name__)
+                  for seq, t, kind, nid, p in ex.ctx.events]
     return res
